@@ -251,6 +251,44 @@ def bounds_history_cases(run):
                 oracle(run, cfg, idnt, cap.calls, p2, fixed)
 
 
+def analysis_history_cases(run):
+    """a successful fit followed by the analysis-only calls
+    compute_emodulus_mindelta / estimate_optimal_mindelta on the same curve:
+    the reported outputs must still be those of the fit (all relations of C04
+    re-checked against the optimisation that produced the columns)"""
+    n = 4 if run.tier == "quick" else 40
+    cfgs = [c for c in configs(run.rng, run.tier)
+            if c["method"] == "leastsq" and not c["expr"]
+            and c["segment"] == 0][:n]
+    for cfg in cfgs:
+        cfg = dict(cfg, history="scan-after-fit")
+        key = "hist:" + common.sha(cfg)[:16]
+        try:
+            idnt, calls, p0, fixed = run_cfg(cfg)
+            if not idnt.fit_properties.get("success"):
+                continue
+            before = {k: copy.deepcopy(idnt.fit_properties.get(k))
+                      for k in ("hash", "chi_sqr", "xmin", "xmax", "success")}
+            import warnings
+            with warnings.catch_warnings():
+                warnings.simplefilter("ignore")
+                idnt.compute_emodulus_mindelta()
+                idnt.estimate_optimal_mindelta()
+        except BaseException as e:
+            run.failing(SITE, key, f"{cfg}: raised {type(e).__name__}: {e}",
+                        payload={"kind": "rerun"})
+            continue
+        run.case(cfg, kind="scan-history")
+        fp = idnt.fit_properties
+        changed = [k for k, v in before.items() if fp.get(k) != v]
+        if changed:
+            run.failing(SITE, key + "|changed", f"{cfg}: an E(delta) scan "
+                        f"after the fit changed the reported {changed} "
+                        "although no fit setting changed",
+                        payload={"kind": "rerun"}, theorem="C04 (fit column)")
+        oracle(run, cfg, idnt, calls, p0, fixed)
+
+
 def check(run):
     run.sources = common.source_digests(
         ["src/nanite/fit.py", "src/nanite/model/residuals.py",
@@ -301,6 +339,7 @@ def check(run):
     fits.eval_bool_cases(run, "c04_fit", exprs, descr)
     unsuccessful_cases(run)
     bounds_history_cases(run)
+    analysis_history_cases(run)
     for kf in run.known:
         if kf.get("status") == "fixed":
             run.fixed_must_pass(kf["id"], not any(
